@@ -89,6 +89,11 @@ func (r *Rand) Perm(n int) []int {
 // Fork derives an independent stream.
 func (r *Rand) Fork(i uint64) *Rand { return NewRand(r.Uint64(), i) }
 
+// Derive derives an independent stream from the current state WITHOUT advancing r: decisions drawn
+// from it do not shift what r yields afterwards (used to add optional features to a generator
+// without changing what it generates when the feature is not chosen).
+func (r *Rand) Derive(i uint64) *Rand { return NewRand(mix(r.s^0x6a09e667f3bcc909), i) }
+
 // ---------------------------------------------------------------- findings
 
 // Finding is one entry of /verif/known_findings.json.
@@ -255,6 +260,13 @@ func (r *Run) Count(name string, n int) {
 	r.mu.Lock()
 	r.counters[name] += int64(n)
 	r.mu.Unlock()
+}
+
+// Counter returns the current value of a named observation counter.
+func (r *Run) Counter(name string) int64 {
+	r.mu.Lock()
+	defer r.mu.Unlock()
+	return r.counters[name]
 }
 
 // Max keeps the maximum of a named observation.
